@@ -641,6 +641,40 @@ func genDecodeCase(r *prng.R, kind string) Case {
 	}
 }
 
+type smallEnc struct {
+	kind, origin string
+	b            []byte
+}
+
+// smallEncodings returns small valid encodings of every form, all of whose
+// prefixes are fed to the decoders.
+func smallEncodings(r *prng.R) []smallEnc {
+	var out []smallEnc
+	k := node.Key(r.Bytes(3))
+	kb, _ := k.MarshalBinary()
+	out = append(out, smallEnc{"key", "key", kb})
+	l := &node.LeafNode{Key: r.Bytes(2), Value: r.Bytes(3)}
+	lb, _ := l.MarshalBinary()
+	out = append(out, smallEnc{"leaf", "leaf", lb}, smallEnc{"node", "leaf", lb})
+	for i, lbl := range []uint16{0, 12, 17} {
+		c := Case{Lbl: lbl, Label: hex.EncodeToString(r.Bytes(node.Depth(lbl).ToBytes()))}
+		if i != 1 {
+			c.HasLeaf, c.Key, c.Value = true, hex.EncodeToString(r.Bytes(2)), hex.EncodeToString(r.Bytes(2))
+		}
+		h := hex.EncodeToString(r.Bytes(32))
+		c.Left = &h
+		nd := inodeOf(c)
+		full, _ := nd.MarshalBinary()
+		c0, _ := nd.CompactMarshalBinaryV0()
+		c1, _ := nd.CompactMarshalBinaryV1()
+		out = append(out, smallEnc{"inode", "inode-full", full}, smallEnc{"inode", "inode-compact-v0", c0}, smallEnc{"inode", "inode-compact-v1", c1})
+		if i == 2 {
+			out = append(out, smallEnc{"node", "inode-full", full})
+		}
+	}
+	return out
+}
+
 // proof entries: a random subtree in pre-order for the given version
 func genSubtree(r *prng.R, v uint16, depth, maxDepth int, out *[][]byte) {
 	x := r.Intn(100)
@@ -869,6 +903,12 @@ func runModel(seed uint64, n int, out string, rc *Case) {
 			for _, d := range []int{127, 128, 129, 130} {
 				cases = append(cases, Case{Kind: "walk", V: v, Entries: hexEntries(chain(v, d)), Origin: fmt.Sprintf("fixed-chain%d", d)})
 				cases = append(cases, Case{Kind: "proof", V: v, Entries: hexEntries(chain(v, d)), Origin: fmt.Sprintf("fixed-chain%d", d)})
+			}
+		}
+		// every prefix of a few small valid encodings (systematic truncation)
+		for _, e := range smallEncodings(r.Fork()) {
+			for cut := 0; cut <= len(e.b); cut++ {
+				cases = append(cases, Case{Kind: e.kind, Data: hex.EncodeToString(e.b[:cut]), Origin: "prefix:" + e.origin})
 			}
 		}
 		for i := 0; i < n; i++ {
